@@ -550,11 +550,12 @@ def local_binding_order(fnode):
 def loop_keys(fnode):
     """ordinal label -> iterable / test text of every loop of a function (same labels as the interpreter's anchors)"""
     m = node_ordinals(fnode, (ast.For, ast.While, ast.ListComp, ast.DictComp, ast.GeneratorExp), "loop")
+    # (the interpreter labels a while loop by its ordinal among the tests of the function: anchors_for)
+    mt = node_ordinals(fnode, (ast.If, ast.IfExp, ast.BoolOp, ast.While), "test")
     out = {}
     for n in ast.walk(fnode):
-        if id(n) in m:
-            if isinstance(n, ast.For):
-                out[m[id(n)]] = "iter:" + ast.unparse(n.iter)
-            elif isinstance(n, ast.While):
-                out[m[id(n)]] = "while:" + ast.unparse(n.test)
+        if isinstance(n, ast.For) and id(n) in m:
+            out[m[id(n)]] = "iter:" + ast.unparse(n.iter)
+        elif isinstance(n, ast.While) and id(n) in mt:
+            out[mt[id(n)]] = "while:" + ast.unparse(n.test)
     return out
